@@ -6,5 +6,6 @@ for id in C01 C02 C03 C04 C05 C06 C07 C08 C09 C10 C11 C12 C13 C14 C15 C16 C17 C1
   s=$(date +%s)
   out=$(./check "$id" "$tier" 2>&1); code=$?
   e=$(date +%s)
+  mkdir -p "evidence_snapshots/$tier"; cp "evidence/$id.json" "evidence_snapshots/$tier/$id.json" 2>/dev/null
   echo "$id exit=$code $((e-s))s $(echo "$out" | grep -E "VIOLATION|KNOWN-FINDING|MACHINERY" | head -2 | tr '\n' ' ' | cut -c1-200)"
 done
